@@ -18,19 +18,25 @@ class C14(Prop):
             "VmapWrapper(AutoResetWrapper) are fed identical inputs and compared, every slice is compared with the single-instance "
             "reference, VmapWrapper slices with env.step, render with element 0; distinct = distinct (ops, final states) digest; "
             "non-trivial = >= 3 steps and >= 1 element was reset")
-    quick_runs = 8
+    quick_runs = 5  # per shard; the quick tier runs two shards per configuration (both next_obs_in_extras settings, two batch sizes)
 
     def select_configs(self, adapter: Any, tier: str) -> List[Dict[str, Any]]:
         return wrapper_configs(adapter, tier)
 
     def shards(self, adapter, cfg, tier):
-        return 1 if tier == "quick" else 3
+        return 2 if tier == "quick" else 3
 
     def run_task(self, task: Dict[str, Any]) -> Dict[str, Any]:
         from jsim import wrapsim
 
         task = dict(task)
-        task.setdefault("B", 3 if task["tier"] == "quick" else [1, 4, 8][task["shard"] % 3])
+        if task["tier"] == "quick":
+            # shard 0: batch of 3; shard 1: another batch size, chosen per (env, config) from 1, 2, 4 (batch size 1 included)
+            from jsim import util
+
+            task.setdefault("B", 3 if task["shard"] == 0 else [1, 2, 4][util.crc(task["env"] + task["cfg"]["id"]) % 3])
+        else:
+            task.setdefault("B", [1, 4, 8][task["shard"] % 3])
         task.setdefault("scan_len", 3)
         return wrapsim.run_task(self, task)
 
